@@ -79,6 +79,46 @@ def eff(f):
     return MAX_LIMIT
 
 
+def judge(backend, stored, filters, got, viol, labels):
+    """the C12 oracle for one answered REQ; returns non-trivial?"""
+    sent = [g["id"] for g in got]
+    for i in sent:
+        if i not in stored:
+            viol.append(V("%s-ghost" % backend, "sent event is stored", id=i))
+            return False
+    may = [[e for e in stored.values() if R.may_match(e, f)] for f in filters]
+    must = [[e for e in stored.values() if R.must_match(e, f)] for f in filters]
+    effs = [eff(f) for f in filters]
+    total_allowed = sum(effs)
+    nt = any(len(may[i]) > effs[i] for i in range(len(filters)))
+    if len(sent) > total_allowed:
+        viol.append(V("%s-over-limit-total" % backend, "at most sum of effective limits events are sent",
+                      backend=backend, filters=filters, sent=len(sent), allowed=total_allowed))
+    for i, f in enumerate(filters):
+        others = [g for j, g in enumerate(filters) if j != i]
+        only = [s for s in sent if R.may_match(stored[s], f) and not any(R.may_match(stored[s], g) for g in others)]
+        lim_label = "limit:%s" % (f.get("limit", "absent"),)
+        labels.append(lim_label)
+        if len(only) > effs[i]:
+            viol.append(V("%s-over-limit:%s" % (backend, limit_class(f)),
+                          "at most min(n, max_limit) events are sent for a filter",
+                          backend=backend, filter=f, filters=filters, sent_for_filter=len(only), allowed=effs[i]))
+        omitted = [e for e in must[i] if e["id"] not in sent]
+        if omitted and len(may[i]) <= effs[i]:
+            viol.append(V("%s-truncated-under-limit:%s" % (backend, "multi" if len(filters) > 1 else "single"),
+                          "a limit not smaller than the number of matches truncates nothing",
+                          backend=backend, filter=f, filters=filters, omitted=[e["id"] for e in omitted]))
+        if omitted and only:
+            oldest_sent = min(stored[s]["created_at"] for s in only)
+            newer = [e for e in omitted if e["created_at"] > oldest_sent]
+            if newer:
+                viol.append(V("%s-not-newest:%s" % (backend, shape(f)),
+                              "no omitted matching event is newer than a sent one",
+                              backend=backend, filter=f, filters=filters, omitted_newer=[(e["id"], e["created_at"]) for e in newer],
+                              oldest_sent=oldest_sent))
+    return nt
+
+
 class Limits(Sub):
     name = "limits"
     examples = {"quick": 2400, "thorough": 19200}
@@ -112,41 +152,75 @@ class Limits(Sub):
             if err or eose != 1:
                 viol.append(V("%s-req-not-served" % backend, "a well-formed REQ is served with one EOSE", err=err, eose=eose))
                 return Result(viol, False, labels)
-            sent = [g["id"] for g in got]
-            for i in sent:
-                if i not in stored:
-                    viol.append(V("%s-ghost" % backend, "sent event is stored", id=i))
-                    return Result(viol, False, labels)
-            may = [[e for e in stored.values() if R.may_match(e, f)] for f in filters]
-            must = [[e for e in stored.values() if R.must_match(e, f)] for f in filters]
-            effs = [eff(f) for f in filters]
-            total_allowed = sum(effs)
-            nt = any(len(may[i]) > effs[i] for i in range(len(filters)))
-            if len(sent) > total_allowed:
-                viol.append(V("%s-over-limit-total" % backend, "at most sum of effective limits events are sent",
-                              backend=backend, filters=filters, sent=len(sent), allowed=total_allowed))
-            for i, f in enumerate(filters):
-                others = [g for j, g in enumerate(filters) if j != i]
-                only = [s for s in sent if R.may_match(stored[s], f) and not any(R.may_match(stored[s], g) for g in others)]
-                lim_label = "limit:%s" % (f.get("limit", "absent"),)
-                labels.append(lim_label)
-                if len(only) > effs[i]:
-                    viol.append(V("%s-over-limit:%s" % (backend, limit_class(f)),
-                                  "at most min(n, max_limit) events are sent for a filter",
-                                  backend=backend, filter=f, filters=filters, sent_for_filter=len(only), allowed=effs[i]))
-                omitted = [e for e in must[i] if e["id"] not in sent]
-                if omitted and len(may[i]) <= effs[i]:
-                    viol.append(V("%s-truncated-under-limit:%s" % (backend, "multi" if len(filters) > 1 else "single"),
-                                  "a limit not smaller than the number of matches truncates nothing",
-                                  backend=backend, filter=f, filters=filters, omitted=[e["id"] for e in omitted]))
-                if omitted and only:
-                    oldest_sent = min(stored[s]["created_at"] for s in only)
-                    newer = [e for e in omitted if e["created_at"] > oldest_sent]
-                    if newer:
-                        viol.append(V("%s-not-newest:%s" % (backend, shape(f)),
-                                      "no omitted matching event is newer than a sent one",
-                                      backend=backend, filter=f, filters=filters, omitted_newer=[(e["id"], e["created_at"]) for e in newer],
-                                      oldest_sent=oldest_sent))
+            nt = judge(backend, stored, filters, got, viol, labels)
+        return Result(viol, nt, labels)
+
+
+class WsReuse(Sub):
+    """several REQs on one websocket connection, re-using subscription ids with and without CLOSE in between"""
+
+    name = "ws-reuse"
+    examples = {"quick": 400, "thorough": 3200}
+    shards = {"quick": 8, "thorough": 16}
+    rule = ("one connection, 2..5 REQs over a store of 4..20 events with subscription ids drawn from {x, y}, limits from the "
+            "usual set, optionally a CLOSE or a freshly accepted event in between; EVERY answer (the frames up to its EOSE) is "
+            "judged by the limit oracle on its own; non-trivial = a later REQ re-uses an id without CLOSE and its answer "
+            "overlaps an earlier one")
+
+    def strategy(self, tier):
+        req = st.tuples(st.sampled_from(["x", "x", "y"]), st.sampled_from([{"kinds": [1]}, {"kinds": [1, 2]}, {"#t": ["a"]},
+                                                                            {"authors": [qgen.PUBS[0]]}]),
+                        st.sampled_from(LIMITS), st.sampled_from(["", "", "close", "event"])).map(list)
+        return st.tuples(st.sampled_from(["kv", "sql"]), st.integers(4, 20), st.lists(req, min_size=2, max_size=5)).map(list)
+
+    def run_case(self, case):
+        return H.run(self._run, case)
+
+    async def _run(self, case):
+        import json
+
+        backend, n, reqs = case
+        viol = []
+        labels = ["backend:" + backend]
+        nt = False
+        async with H.Rig(backend, validators=[]) as rig:
+            for i in range(n):
+                await rig.add(E.free("%064x" % (i + 1), qgen.PUBS[i % 2], 1 if i % 3 else 2, E.T0 + i, [["t", "a" if i % 2 else "b"]]))
+            c = rig.conn("10.0.0.1")
+            seen = {}
+            extra = 0
+            for sub, f, lim, between in reqs:
+                if between == "close":
+                    await c.send(["CLOSE", sub])
+                    seen.pop(sub, None)
+                elif between == "event":
+                    extra += 1
+                    await rig.add(E.free("%064x" % (0xee00 + extra), qgen.PUBS[0], 1, E.T0 + 100 + extra, [["t", "a"]]))
+                f = dict(f)
+                if lim != "absent":
+                    f["limit"] = lim
+                n0 = len(c.out)
+                await c.send(["REQ", sub, f])
+                frames = c.frames(n0)
+                got = []
+                for fr in frames:
+                    if fr[0] == "EOSE" and fr[1] == sub:
+                        break
+                    if fr[0] == "EVENT" and fr[1] == sub:
+                        got.append(fr[2])
+                else:
+                    viol.append(V("%s-req-not-served" % backend, "a well-formed REQ is served with one EOSE", frames=frames[:3]))
+                    break
+                stored = await rig.dump()
+                j = judge(backend, stored, [f], got, viol, labels)
+                ids = {g["id"] for g in got}
+                if sub in seen and (seen[sub] & {e["id"] for e in stored.values() if R.must_match(e, f)}):
+                    nt = True
+                    labels.append("id-reused-without-close")
+                seen[sub] = seen.get(sub, set()) | ids
+                if viol:
+                    viol[0]["detail"]["reqs"] = reqs
+                    break
         return Result(viol, nt, labels)
 
 
@@ -240,4 +314,4 @@ def shape(f):
     return "multi-value" if multi else "single-value"
 
 
-SUBCHECKS = [Limits(), SqlFetchFault()]
+SUBCHECKS = [Limits(), SqlFetchFault(), WsReuse()]
